@@ -17,6 +17,7 @@
    (Examples ex_tcp_genuine_accepted, ex_tcp_all_flips_silent, ex_tcp_all_prefixes_blocked, ex_udp_history, ...). *)
 From Coq Require Import ZArith NArith List.
 From M Require Import gen.Consts model.ServerFront proofs.ServerFrontProofs.
+From M Require Import model.Discover proofs.DiscoverProofs proofs.ServerFrontDiscoverInst.
 Import ListNotations.
 Open Scope Z_scope.
 
@@ -178,3 +179,108 @@ Proof.
   exact (conj Toy.toy_cands_registered (conj Toy.toy_open_forged_none (conj Toy.ex_flips_not_produced Toy.ex_tcp_genuine_accepted))).
 Qed.
 Print Assumptions C05_nonvacuous.
+
+(* ------------------------------------------------------------------------------------------------------------
+   The front door COMPOSED WITH USER DISCOVERY (model/Discover.v, property C07): premise [cands_registered] above
+   is no longer assumed.  users : list U is the published generation of registered users (ids 1..length users,
+   as buildState assigns them), key_of u the cipher key of user u, open_k the AEAD opening of the 72-byte header,
+   hint h u = CheckUserFromHint(u.name, nonce of h) (any function: collisions allowed), cached src = whatever the
+   source-address cache returns (any list), mandatory = the hint-mandatory switch.  A cipher of the front door is
+   a user id:  d_open i h = open_k (key_of u) h for the user with id i;  the candidates are what tryState
+   attributes the header to (the two unfolding theorems below say exactly this).
+   Remaining premises: INT-CTXT ([int_ctxt], about the users' real keys); on UDP the state invariant that existing
+   sessions hold ids of registered users.  The user table is one fixed generation per statement. *)
+
+Theorem C05_discover_candidates_are_try_state :
+  forall (U K : Type) (users : list U) (key_of : U -> K) (open_k : K -> bytes -> option bytes)
+         (hint : bytes -> U -> bool) (cached : addr -> list N) (mandatory : bool) (h : bytes) (src : addr),
+  d_cands users key_of open_k hint cached mandatory h src =
+  match r_hit (try_state U (hint h) (fun u => match open_k (key_of u) h with Some _ => true | None => false end)
+                         users (cached src) mandatory) with
+  | Some (i, _, _) => [i]
+  | None => []
+  end.
+Proof. exact @d_cands_unfold. Qed.
+Print Assumptions C05_discover_candidates_are_try_state.
+
+Theorem C05_discover_cipher_of_id :
+  forall (U K : Type) (users : list U) (key_of : U -> K) (open_k : K -> bytes -> option bytes) (i : N) (h : bytes),
+  d_open users key_of open_k i h = match user_by_id U users i with Some u => open_k (key_of u) h | None => None end.
+Proof. exact @d_open_unfold. Qed.
+Print Assumptions C05_discover_cipher_of_id.
+
+(* H1 as a theorem: the candidate discovery hands to the front door, and every user tryState tries on the way,
+   is a registered id (from C07_attr_sound / C07_attr_tried_registered) *)
+Theorem C05_cands_registered_proved :
+  forall (U K : Type) (users : list U) (key_of : U -> K) (open_k : K -> bytes -> option bytes) (hint : bytes -> U -> bool)
+         (cached : addr -> list N) (mandatory : bool) (h : bytes) (src : addr) (i : N),
+  (In i (d_cands users key_of open_k hint cached mandatory h src) -> In i (reg_ids users)) /\
+  (In i (r_tried (d_try users key_of open_k hint cached mandatory h src)) -> In i (reg_ids users)).
+Proof.
+  exact (fun U K users key_of open_k hint cached mandatory h src i =>
+           conj (d_cands_registered U K users key_of open_k hint cached mandatory h src i)
+                (d_tried_registered U K users key_of open_k hint cached mandatory h src i)).
+Qed.
+Print Assumptions C05_cands_registered_proved.
+
+(* C05_silent_tcp with discovery inside: the only premise is INT-CTXT *)
+Theorem C05_silent_tcp_discover :
+  forall (U K : Type) (users : list U) (key_of : U -> K) (open_k : K -> bytes -> option bytes)
+         (body_tcp : K -> bytes -> bytes -> option bytes) (hint : bytes -> U -> bool) (cached : addr -> list N)
+         (mandatory : bool) (le_ok : bytes -> bool) (le_decode : bytes -> bytes -> option bytes) (sig_of : bytes -> N)
+         (rcache : Type) (rc_dup : rcache -> N -> addr -> Z -> bool * rcache) (produced : bytes -> Prop),
+  (forall h : bytes, ~ produced h -> forall u : U, In u users -> open_k (key_of u) h = None) ->
+  forall (rc : rcache) (src : addr) (input : bytes) (now : Z),
+  ~ produced (firstn hdr_len input) ->
+  let r := fst (tcp_front N (d_open users key_of open_k) (d_body users key_of body_tcp) le_ok le_decode
+                          (d_cands users key_of open_k hint cached mandatory) sig_of rcache rc_dup rc src input now) in
+  (t_out r = [] /\ t_created r = [] /\ t_app r = [] /\ t_recv r = None /\ send_cipher N (t_recv r) = None) /\
+  (t_verdict r = V_blocked \/ t_verdict r = V_crypto \/ t_verdict r = V_replay).
+Proof. exact c05_silent_tcp_discover. Qed.
+Print Assumptions C05_silent_tcp_discover.
+
+(* C05_silent_udp with discovery inside *)
+Theorem C05_silent_udp_discover :
+  forall (U K : Type) (users : list U) (key_of : U -> K) (open_k : K -> bytes -> option bytes)
+         (body_udp : K -> bytes -> bytes -> option bytes) (hint : bytes -> U -> bool) (cached : addr -> list N)
+         (mandatory : bool) (le_ok : bytes -> bool) (le_decode : bytes -> bytes -> option bytes) (sig_of : bytes -> N)
+         (rcache : Type) (rc_dup : rcache -> N -> addr -> Z -> bool * rcache) (produced : bytes -> Prop),
+  (forall h : bytes, ~ produced h -> forall u : U, In u users -> open_k (key_of u) h = None) ->
+  forall (probe : event -> bool) (evs : list event) (st : ustate N rcache),
+  (forall s : usession N, In s (u_sessions st) -> In (us_key s) (reg_ids users)) ->
+  (forall e : event, In e evs -> probe e = true ->
+     match e with Dgram d _ _ => ~ produced (firstn hdr_len d) | Clean _ => False end) ->
+  forall (e : event) (r : udp_result N),
+  In (e, r) (fst (udp_run N (fun i => i) (d_open users key_of open_k) (d_body users key_of body_udp) le_ok le_decode
+                          (d_cands users key_of open_k hint cached mandatory) sig_of rcache rc_dup st evs)) ->
+  probe e = true ->
+  (u_out r = [] /\ u_created r = [] /\ u_delivered r = []) /\ (u_verdict r = V_short \/ u_verdict r = V_undecryptable).
+Proof. exact c05_silent_udp_discover. Qed.
+Print Assumptions C05_silent_udp_discover.
+
+(* the link to C07: when the first segment of a connection DOES create a session, the receive cipher of the
+   connection (and with it the session's user) is the user i that tryState attributed the header to - registered
+   under id i in this generation, its key opens the header, it matches the hint whenever hints are mandatory, and
+   whenever some registered hint-matching user's key opens the header (C07_attr_sound, C07_attr_hint_pref).
+   No cryptographic premise. *)
+Theorem C05_attribution :
+  forall (U K : Type) (users : list U) (key_of : U -> K) (open_k : K -> bytes -> option bytes)
+         (body_tcp : K -> bytes -> bytes -> option bytes) (hint : bytes -> U -> bool) (cached : addr -> list N)
+         (mandatory : bool) (le_ok : bytes -> bool) (le_decode : bytes -> bytes -> option bytes) (sig_of : bytes -> N)
+         (rcache : Type) (rc_dup : rcache -> N -> addr -> Z -> bool * rcache) (rc : rcache) (src : addr)
+         (input : bytes) (now : Z),
+  let front := tcp_front N (d_open users key_of open_k) (d_body users key_of body_tcp) le_ok le_decode
+                         (d_cands users key_of open_k hint cached mandatory) sig_of rcache rc_dup in
+  t_created (fst (front rc src input now)) <> [] ->
+  let h := firstn hdr_len input in
+  exists (i : N) (u : U) (o : origin) (m : bytes),
+    t_recv (fst (front rc src input now)) = Some i /\
+    r_hit (try_state U (hint h) (d_auth key_of open_k h) users (cached src) mandatory) = Some (i, u, o) /\
+    user_by_id U users i = Some u /\ In u users /\
+    open_k (key_of u) h = Some m /\
+    hint h u = origin_hint o /\
+    (mandatory = true -> hint h u = true) /\
+    ((exists (j : N) (v : U), user_by_id U users j = Some v /\ hint h v = true /\ open_k (key_of v) h <> None) ->
+     hint h u = true).
+Proof. exact c05_attribution. Qed.
+Print Assumptions C05_attribution.
